@@ -68,7 +68,11 @@ class Ctx:
         if len(self.samples) < cap:
             self.samples.append(obj)
 
+    replay_extra = None
+
     def violation(self, signature, description, replay=None):
+        if self.replay_extra and isinstance(replay, dict):
+            replay = dict(replay, **self.replay_extra)
         # cap memory, keep the first of each signature + a few
         n = sum(1 for v in self.violations if v[0] == signature)
         if n < 3:
